@@ -25,7 +25,7 @@ def shards(tier, seed, nplain=10, nasan=4, q_cases=500, t_cases=30000, real=True
                     'budget_s': 50 if q else 600, 'kind': 'synthetic'})
     if real:
         out += [{'name': f'real-{lang}', 'variant': 'plain', 'build': 'plain', 'kind': 'real', 'lang': lang,
-                 'cases': 12 if q else 400, 'budget_s': 50 if q else 600} for lang in ('en', 'ja')]
+                 'cases': 30 if q else 400, 'budget_s': 50 if q else 600} for lang in ('en', 'ja')]
     return out
 
 
